@@ -168,7 +168,7 @@ def render_layer(quick_s=15, thorough_s=300):
         except Exception:
             return {"what": "C15 rendering layer", "error": (err or out)[-400:], "violations": []}
         r = {"what": "C15 rendering layer: random abstract machines (2-4 states in shuffled declaration order, 1-3 events, guards, transitions shared "
-                     "by two events, an optional any-group) written as class-body source in 16 declaration styles, executed on the real library "
+                     "by two events, an optional any-group) written as class-body source in 17 declaration styles, executed on the real library "
                      "and compared on states, events, allowed events per step, outcomes and convention-callback traces over random event "
                      "sequences and guard verdicts (bounded, not a proof)",
              "bound": f"time budget {limit}s (at least 150 machines), seed {seed}; 5 sequences of <= 6 events per machine; styles: " + ", ".join(res.get("styles", [])),
@@ -315,15 +315,15 @@ PROPERTIES = {
     "C01": {"scans": [_scans_engine], "bounded": [scenario_layer("C01")], "search": scenario_search("C01")},
     "C02": {"lemmas": [_lemmas_cnt], "scans": [_scans_engine],
             # the declaration styles decide in WHICH group a callback is registered (decorator forms, event= strings, conventions)
-            "bounded": [scenario_layer("C02"), render_layer(quick_s=8, thorough_s=60)], "search": scenario_search("C02")},
+            "bounded": [scenario_layer("C02"), render_layer(quick_s=8, thorough_s=60), probes("C02", ["C02_the_given_callable_runs_not_a_namesake"])], "search": scenario_search("C02")},
     "C03": {"scans": [_scans_engine], "bounded": [scenario_layer("C03")], "search": scenario_search("C03")},
     "C04": {"lemmas": [_lemma_not_wedged], "scans": [_scans_engine], "bounded": [scenario_layer("C04")], "search": scenario_search("C04")},
-    "C14": {"bounded": [scenario_layer("C14")], "search": scenario_search("C14")},
+    "C14": {"bounded": [scenario_layer("C14"), probes("C14", ["C14_states_named_like_conventions_are_not_callbacks"])], "search": scenario_search("C14")},
     "C05": {"assumptions": [
         "asyncio.gather / as_completed / run_async_from_sync: assumed contracts (pyvc/models.py); the order of effects inside one callback group is left unconstrained, as documented",
         "relational reading: sync and async functions are verified against the SAME contract classes"],
         "bounded": [scenario_layer("C05"), probes("C05", ["C05_sync_driver_keeps_one_loop"])], "search": scenario_search("C05")},
-    "C10": {"scans": [_scans_engine], "bounded": [fixed_witnesses("C10", ['C10_falsy_values']), scenario_layer("C10"), probes("C10", ["C10_every_transition_stores_the_target_value"])],
+    "C10": {"scans": [_scans_engine], "bounded": [fixed_witnesses("C10", ['C10_falsy_values']), scenario_layer("C10"), probes("C10", ["C10_every_transition_stores_the_target_value", "C10_falsy_machine_instance"])],
             "search": scenario_search("C10")},
     "C11": {"bounded": [fixed_witnesses("C11", ['C11_nonrtc_resume']), scenario_layer("C11"), probes("C11", ["C11_mixin_resumes_stored_state"])], "search": scenario_search("C11")},
     "C13": {"bounded": [fixed_witnesses("C13", ['C13_send_attribute']), api_layer("C13"), render_layer(quick_s=8, thorough_s=60)], "assumptions": [
